@@ -488,6 +488,11 @@ impl Memfs {
                 dst_root.mash(src.path().trim_prefix(src_root.path()))
             };
 
+            // Copying an entry onto itself changes nothing
+            if dst_path == src.path() {
+                continue;
+            }
+
             // Recreate links if were not following them
             if !cp.follow && src.is_symlink() {
                 // Copying into a directory might require creating it first
